@@ -1028,6 +1028,15 @@ def complex_branches(ctx, mod, rule='C01-D4'):
                 return {ast.Add: lambda: x + y_, ast.Sub: lambda: x - y_, ast.Mult: lambda: x * y_, ast.Div: lambda: x / y_}[type(e.op)]()
             if isinstance(e, ast.Call) and call_name(e) == 'CObs' and len(e.args) == 2:
                 return tr(e.args[0]) + sp.I * tr(e.args[1])
+            # the complex partner's own methods / the functions of a complex number
+            if isinstance(e, ast.Call) and isinstance(e.func, ast.Attribute) and e.func.attr in ('conjugate', 'conj') and not e.args:
+                return sp.conjugate(tr(e.func.value))
+            if isinstance(e, ast.Call) and call_name(e) in ('abs', 'absolute') and len(e.args) == 1 and (isinstance(e.func, ast.Name) or unparse(e.func) in ('np.abs', 'np.absolute')):
+                return sp.Abs(tr(e.args[0]))
+            if isinstance(e, ast.Call) and unparse(e.func) in ('np.conj', 'np.conjugate') and len(e.args) == 1:
+                return sp.conjugate(tr(e.args[0]))
+            if isinstance(e, ast.BinOp) and isinstance(e.op, ast.Pow) and isinstance(e.right, ast.Constant) and isinstance(e.right.value, int):
+                return tr(e.left) ** e.right.value
             raise Unrecognised(unparse(e))
         for r in [x for x in statements(f) if isinstance(x, ast.Return) and x.value is not None]:
             g = [(unparse(t), pol) for t, pol in guards_of(mod, r, stop=f)]
